@@ -108,4 +108,18 @@ PROPS = {
         "assumptions": ["reference = long-double normal equations solved with full-pivoting LU; condition number by power/inverse iteration in long double",
                         "verdict covers only the executions sampled"],
     },
+    "C09": {
+        "units": [{"name": "c09", "src": "harness/c09.cpp", "flavor": "asan", "shards": {"quick": 12, "thorough": 16}}],
+        "rule": "cases = (problem family, start, options, differentiation mode): linear LS (dynamic/static, dense/sparse analytic, numerical, default), "
+                "point alignment on SO3/SE3/SE2 (noise-free and 1e-8..1e-4 noise; starts at / near / far from the minimiser), a three-argument "
+                "(SO3, Bundle<SO3,R3>, double) problem, Rosenbrock, Powell singular, exponential fit, rank-deficient / zero Jacobian, zero residual at "
+                "start; options max_iter in {0,1,2,5,30,1000}, ptol/ftol in 1e-12..1e-2, Ceres/Disney strategies fresh and REUSED across problems; "
+                "every run is repeated with max_iter+5 from identical strategy state to decide status truthfulness; distinct = distinct (start, data)",
+        "floors": {"min_evaluations": {"quick": 15000, "thorough": 400000},
+                   "cells": [r"align_SE3\.numerical\.finds_minimiser", r"linear_dynamic\.analytic_sparse\.status_truthful", r"multi_argument\.numerical\.monotone_cost",
+                             r"\.monotone_cost\|disney_reused", r"\.iter_le_max_iter\|.*max_iter=0"],
+                   "counters": ["C09.status.Ftol", "C09.status.Ptol", "C09.status.MaxIters", "C09.rejected_steps", "C09.accepted_steps"]},
+        "assumptions": ["cost along the iterates is re-evaluated by the monitor with the same residual functor (double); minimisers from long-double normal "
+                        "equations / the generating transform", "verdict covers only the executions sampled"],
+    },
 }
